@@ -16,10 +16,10 @@ RULE = ("E-HIST: breadth-first search over every history of construct/export ope
         "LinearScales with equal-span domains at different offsets, explicit domain; together using every option group - up to depth 8 with one back-end per spec (thorough: both back-ends, 6 specs, depth 7). Every history is replayed from a purged, re-imported library; "
         "states are deduplicated by a fingerprint of the instances AND all labella module/class globals (aliasing included). "
         "Oracle: every export is byte-identical to the export of the same spec alone in a fresh interpreter process. "
-        "Non-trivial: an export made after a different spec was constructed or exported since this instance was built.")
+        "Plus every ordered pair of 20 default-scale timelines spanning 40 s .. 15 y anchored around one calendar boundary (all tick units), built one after the other. Non-trivial: an export made after a different spec was constructed or exported since this instance was built.")
 ASSUMPTIONS = ["reference documents come from fresh subprocesses started by the check (one per spec and back-end)",
                "data and options are deep-copied per construction; caller-side sharing is outside the claim"]
-REQUIRED_COUNTERS = ("exports_checked", "exports_after_other_spec", "repeated_exports")
+REQUIRED_COUNTERS = ("exports_checked", "exports_after_other_spec", "repeated_exports", "pair_exports")
 
 dt = _dt.datetime
 # Together the specs use every option group (scale default/own, domain, labella, margin, labelPadding, latex, colour lists,
@@ -30,14 +30,16 @@ SPECS = {
                    {"time": dt(2020, 1, 20, 18, 30), "width": 40}], "options": "SHARED"},
     "B": {"data": [{"time": dt(1991, 5, 5), "width": 40, "text": "x"}, {"time": dt(1993, 5, 5), "width": 40}, {"time": dt(1993, 6, 1), "width": 40},
                    {"time": dt(1998, 5, 5), "width": 40}],
-          "options": {"direction": "up", "labella": {"maxPos": 100}, "labelPadding": {"left": 9, "right": 1, "top": 4, "bottom": 6}}},
+          "options": {"direction": "up", "labella": {"maxPos": 100, "lineSpacing": 7}, "labelPadding": {"left": 9, "right": 1, "top": 4, "bottom": 6}}},
     "C": {"data": [{"time": 1, "width": 30}, {"time": 1.5, "width": 30, "text": "c"}, {"time": 9, "width": 30}],
           "options": {"direction": "left", "scale": "LinearScale", "latex": {"tickCross": True, "fontsize": "10pt"}}},
     "D": {"data": [{"time": dt(2021, 3, 14, 2, 30), "width": 50}, {"time": dt(2021, 3, 20), "width": 50}],
           "options": {"direction": "down", "domain": [dt(2021, 3, 1), dt(2021, 4, 1)], "showBorder": True,
                       "margin": {"left": 60, "right": 5, "top": 35, "bottom": 10}, "dotColor": ["#f00", "#00ff00"]}},
-    "E": {"data": [{"time": 11, "width": 30}, {"time": 12.5, "width": 30}, {"time": 19, "width": 30, "text": "e"}],
-          "options": {"direction": "up", "scale": "LinearScale", "labelTextColor": "#abc"}},
+    "E": {"data": [{"time": 11, "width": 30}, {"time": 12.5, "width": 30}, {"time": 19, "width": 30, "text": "e"},
+                   {"time": 12, "width": 42}, {"time": 12.25, "width": 55}, {"time": 13, "width": 47}, {"time": 13.5, "width": 30},
+                   {"time": 14, "width": 61}, {"time": 12.75, "width": 30}],
+          "options": {"direction": "up", "scale": "LinearScale", "labelTextColor": "#abc", "labella": {"maxPos": 260}}},
     "F": {"data": [{"time": dt(2005, 7, 1), "width": 60}, {"time": dt(2005, 7, 2, 6), "width": 60}, {"time": dt(2005, 9, 30), "width": 60}],
           "options": "SHARED"},
 }
@@ -161,6 +163,102 @@ def ops_for(specs, backends=None):
     return out
 
 
+# ---- pairs of default-scale timelines over a ladder of spans anchored near one calendar boundary: the tick unit of one
+# (seconds ... years) must not influence the other
+PAIR_BASE = dt(2021, 2, 1)
+PAIR_SPANS = [40, 240, 3000, 18000, 97200, 3 * 86400, 20 * 86400, 100 * 86400, 1096 * 86400, 5479 * 86400]  # seconds
+
+
+def pair_specs():
+    out = []
+    for si, sp in enumerate(PAIR_SPANS):
+        for ai, anchor in enumerate((PAIR_BASE - _dt.timedelta(seconds=sp + 4800), PAIR_BASE + _dt.timedelta(days=9))):
+            out.append(("P%d%s" % (si, "ab"[ai]), [{"time": anchor, "width": 40}, {"time": anchor + _dt.timedelta(seconds=sp), "width": 40}]))
+    return out
+
+
+PAIR_SCRIPT = r'''
+import sys, json
+sys.path.insert(0, %(verif)r)
+from mc import core
+core.setup_env()
+from mc.props import c10
+out = {}
+for name, data in c10.pair_specs():
+    out[name] = c10.pair_export(data)
+sys.stdout.write(json.dumps(out))
+'''
+
+
+def pair_export(data):
+    from labella.timeline import TimelineSVG
+    d = TimelineSVG(copy.deepcopy(data), {"direction": "right"}).export()
+    return d.decode("latin-1")
+
+
+_pair_refs = {}
+
+
+def pair_references():
+    """Reference export of every pair spec alone: one fresh interpreter process that purges and re-imports the
+    library before each spec (20 separate processes per worker would cost ~3 s each)."""
+    if not _pair_refs:
+        env = dict(os.environ)
+        env["PYTHONHASHSEED"] = "0"
+        script = PAIR_SCRIPT.replace("out[name] = c10.pair_export(data)",
+                                     "core.purge_labella(); out[name] = c10.pair_export(data)")
+        p = subprocess.run([sys.executable, "-c", script % {"verif": core.VERIF}], capture_output=True, text=True, env=env, timeout=300)
+        if p.returncode != 0:
+            raise RuntimeError("pair reference process failed: " + p.stderr[-300:])
+        _pair_refs.update(json.loads(p.stdout))
+    return _pair_refs
+
+
+def plan(tier, seed):
+    n = len(pair_specs())
+    return [{"kind": "pairs", "first": i} for i in range(n)]
+
+
+def run_shard(shard):
+    from labella.timeline import TimelineSVG
+    acc = Acc()
+    specs = pair_specs()
+    refs = pair_references()
+    nx, dx = specs[shard["first"]]
+    for ny, dy in specs:
+        acc.states += 1
+        for order in ("new-new-exp", "exp-new-exp"):
+            purge_labella()
+            from labella.timeline import TimelineSVG
+            try:
+                with horizon(60.0):
+                    x = TimelineSVG(copy.deepcopy(dx), {"direction": "right"})
+                    if order == "exp-new-exp":
+                        x.export()
+                    y = TimelineSVG(copy.deepcopy(dy), {"direction": "right"})
+                    got_y = y.export().decode("latin-1")
+                    got_x = x.export().decode("latin-1")
+            except Exception as e:
+                acc.violation({"pair": [nx, ny], "order": order}, "EXC:" + type(e).__name__, "pair %s,%s raised %r" % (nx, ny, e),
+                              order=(0, shard["first"]))
+                continue
+            acc.evals += 2
+            acc.trans += 2
+            acc.counters["pair_exports"] += 2
+            if nx != ny:
+                acc.nontriv += 1
+            for name, got in ((ny, got_y), (nx, got_x)):
+                if got != refs[name]:
+                    k = next((j for j, (a, b) in enumerate(zip(got, refs[name])) if a != b), 0)
+                    acc.violation({"pair": [nx, ny], "order": order}, "C10:pair-export-differs",
+                                  "timelines %s then %s (%s): the export of %s differs from its export alone in a fresh library "
+                                  "(offset %d: %r vs %r)" % (nx, ny, order, name, k, got[k:k + 40], refs[name][k:k + 40]),
+                                  order=(0, shard["first"]))
+    purge_labella()
+    acc.sample({"pair": [nx, ny], "order": "exp-new-exp"})
+    return acc
+
+
 def hist_init(tier, seed):
     specs = _specs(tier, seed)
     if tier == "quick":  # one back-end per spec, alternating, rotated by the seed; deeper histories
@@ -200,6 +298,22 @@ def hist_expand(ctx, h, acc):
 
 
 def replay(case):
+    if "pair" in case:
+        specs = dict(pair_specs())
+        refs = pair_references()
+        nx, ny = case["pair"]
+        purge_labella()
+        from labella.timeline import TimelineSVG
+        x = TimelineSVG(copy.deepcopy(specs[nx]), {"direction": "right"})
+        if case["order"] == "exp-new-exp":
+            x.export()
+        y = TimelineSVG(copy.deepcopy(specs[ny]), {"direction": "right"})
+        got_y = y.export().decode("latin-1")
+        got_x = x.export().decode("latin-1")
+        purge_labella()
+        if got_y != refs[ny] or got_x != refs[nx]:
+            return "C10:pair-export-differs", "pair %s then %s (%s) differs from the exports alone" % (nx, ny, case["order"])
+        return None
     hist = [tuple(o) for o in case["hist"]]
     for k in range(1, len(hist) + 1):
         bad = check_history(hist[:k])
@@ -209,5 +323,7 @@ def replay(case):
 
 
 def snippet(case):
+    if "pair" in case:
+        return "# two default-scale timelines %r built one after the other (see pair_specs in mc/props/c10.py)" % (case["pair"],)
     return "# history: %s\n# specs: see mc/props/c10.py SPECS; compare the last export with the same spec exported alone" % fmt(
         [tuple(o) for o in case["hist"]])
